@@ -94,6 +94,8 @@ def main():
     cands = candidates(repo, only)
     random.Random(seed).shuffle(cands)
     pids = [c["property_id"] for c in json.load(open(os.path.join(verif, "MANIFEST.json")))["checks"]]
+    if os.environ.get("MUT_PIDS"):                      # restrict the checks that judge (e.g. MUT_PIDS="C01 C10 C17 C18")
+        pids = [p for p in pids if p in os.environ["MUT_PIDS"].split()]
     res_path = os.path.join(work, "results.jsonl")
     done = 0
     for (f, i, old, new, k) in cands:
